@@ -149,6 +149,11 @@ def chaos_script(r):
         cut = sorted(r.sample(range(len(s) + 1), min(len(s) + 1, r.randrange(1, 5)))) if s else [0]
         pieces = [s[a:b] for a, b in zip([0] + cut, cut + [len(s)]) if b > a]
         streams.append([i, pieces, r.choice(["EOF", "RST", "ERR", None, "EOF"])])
+    # sometimes the last piece stays queued so that it is harvested together with the close / hang-up
+    held = {}
+    for st in streams:
+        if st[2] and len(st[1]) >= 1 and r.random() < 0.3:
+            held[st[0]] = st[1].pop()
     # interleave the pieces; sometimes several connections in one batch
     while any(st[1] for st in streams):
         ready = [st for st in streams if st[1]]
@@ -165,8 +170,15 @@ def chaos_script(r):
         if r.random() < 0.05:
             lines.append("ADVANCE %d" % r.choice([10 ** 6, 10 ** 9, 6 * 10 ** 9]))
     for st in streams:
+        if st[0] in held:
+            lines.append("+IN c%d %s" % (st[0], L.hexs(held[st[0]])))
         if st[2]:
-            lines.append("%s c%d" % (st[2], st[0]))
+            if r.random() < 0.35 or st[0] in held:
+                # the peer's close arrives together with (or instead of) readable data: hang-up flags in the event
+                lines.append("+%s c%d" % ("EOF" if st[2] == "ERR" else st[2], st[0]))
+                lines.append("EPOLL c%d:%s" % (st[0], r.choice(["INHUP", "HUP", "INHUP", "ERR"])))
+            else:
+                lines.append("%s c%d" % (st[2], st[0]))
     lines.append("IN c0 " + L.hexs(L.raw_frame(jtext(obj(method="info", id="alive")))))
     lines.append("QUIESCE")
     return lines
